@@ -135,7 +135,7 @@ func printContent(out *scenOut) {
 		tea.Println("first line\nsecond line"),
 	}
 	want := []string{"download: 100%", "50% done", fmt.Sprint(rate, 7, "x"), "a%b|  2.5|[1 2]", fmt.Sprint("two", "words"), "first line", "second line",
-		"method: 100%", "method 7%", fmt.Sprint("m", 1, 2)}
+		"method: 100%", "method 7%", fmt.Sprint("m", 1, 2), "alpha 1", "beta 2"}
 	ctl.onUpdate = func(m tea.Msg, v int) tea.Cmd {
 		if u, ok := m.(userMsg); ok && u.Sender == 4 {
 			if step < len(cmds) {
@@ -155,6 +155,7 @@ func printContent(out *scenOut) {
 	run.p.Println("method: 100%")
 	run.p.Printf("method %d%%", 7)
 	run.p.Println("m", 1, 2)
+	run.p.Printf("alpha %d\nbeta %d", 1, 2) // a multi-line body through the method
 	run.p.Send(userMsg{6, 6})
 	waitFor(2*time.Second, func() bool { return ctl.log.has("update-exit", "u6.6") })
 	time.Sleep(60 * time.Millisecond)
